@@ -9,7 +9,7 @@ from __future__ import annotations
 import json
 import re
 from pathlib import Path
-from typing import Any, Dict, List
+from typing import Any, Dict, List, Tuple
 
 import vlib
 from vlib import CheckRun, MachineryError, SPEC, REPO, run_tlc, Vh
@@ -90,15 +90,29 @@ def rs_rows(dump) -> List[Dict[str, Any]]:
 
 
 def rs_source_consts() -> Dict[str, Dict[str, int]]:
+    """integer constants of every Rust source file: literals, and constants defined in terms of other constants
+    (`const A: u32 = B;`, `= B + 1;`, `= mod::B;`), resolved across files - an aliased copy is still a copy"""
     out: Dict[str, Dict[str, int]] = {}
+    pending: List[Tuple[str, str, str, int]] = []
+    ty = r"(?:u8|u16|u32|u64|usize|i32)"
     for f in sorted(CORE.rglob("*.rs")):
         text = f.read_text()
+        rel = str(f.relative_to(CORE))
         d = {}
-        for m in re.finditer(r"^\s*(?:pub(?:\(crate\))? )?const (\w+): (?:u8|u16|u32|u64|usize|i32) = (0x[0-9A-Fa-f_]+|\d[\d_]*);", text, re.M):
+        for m in re.finditer(r"^\s*(?:pub(?:\(crate\))? )?const (\w+): " + ty + r" = (0x[0-9A-Fa-f_]+|\d[\d_]*);", text, re.M):
             d[m.group(1)] = int(m.group(2).replace("_", ""), 0)
-        if d:
-            out[str(f.relative_to(CORE))] = d
-    return out
+        for m in re.finditer(r"^\s*(?:pub(?:\(crate\))? )?const (\w+): " + ty + r" = (?:[\w:]+::)?([A-Z][A-Z0-9_]*)(?: as " + ty + r")?\s*(?:([+-])\s*(0x[0-9A-Fa-f_]+|\d[\d_]*))?;", text, re.M):
+            off = int(m.group(4).replace("_", ""), 0) if m.group(4) else 0
+            pending.append((rel, m.group(1), m.group(2), -off if m.group(3) == "-" else off))
+        out[rel] = d
+    for _ in range(4):          # resolve chains of aliases
+        known: Dict[str, int] = {}
+        for d in out.values():
+            known.update(d)
+        for rel, name, base, off in pending:
+            if name not in out[rel] and (base in out[rel] or base in known):
+                out[rel][name] = (out[rel].get(base, known.get(base)) + off)
+    return {k: v for k, v in out.items() if v}
 
 
 def rs_pre_and_single():
